@@ -194,6 +194,8 @@ func checkC11(p *Prog, res *Result, tier string) {
 	res.rule("C11-R3", "iterator keys are checked against the end bound; an iterator reads at the caller's timestamp or at one read from the oracle, never at a constant", 3)
 	res.rule("C11-R5", "metrics wrapper forwards each overridden method exactly once with parameters in order", 8)
 	res.rule("C11-R6", "Get returns the ErrKeyNotFound sentinel itself", 3)
+	res.rule("C11-R9", "deleting a key that is not there is not an error in any adapter: Del never reports the ErrKeyNotFound sentinel (the compaction deletes a record it has already deleted, and treats any error as a failed delete)", 3)
+	res.rule("C11-R10", "an adapter that advertises native TTL hands the ttl of every write form (Put, PutIfNotExist, CAS) to the engine (or records it with the staged operation)", 6)
 	res.rule("C11-R8", "the in-process engine's iterator yields snapshot copies: live skip-list elements are dereferenced only under the store lock (C19-R3)", 2)
 	res.rule("C11-R7", "reported partitions are clamped into the requested interval", 3)
 
@@ -282,6 +284,8 @@ func checkC11(p *Prog, res *Result, tier string) {
 	checkOracleAPI(p, r, res)
 	checkWrapperTransparency(p, r, res)
 	checkNotFoundIdentity(p, r, res, "C11-R6")
+	checkDelIdempotent(p, r, res, "C11-R9")
+	checkNativeTTLHonoured(p, r, res, "C11-R10")
 	checkPartitionClamp(p, r, res, "C11-R7")
 	{
 		sub19 := newResult("C19")
@@ -696,17 +700,45 @@ func checkWrittenValue(p *Prog, r *Roles, res *Result) {
 				}
 				return c.Common().Args[pidx]
 			}
+			skipped := ""
 			for _, g := range withAnon(f) {
+				var writes []ssa.CallInstruction
 				for _, c := range callsIn(g) {
 					v := valueOperand(c)
 					if v == nil {
 						continue
 					}
 					n++
+					writes = append(writes, c)
 					if p.resolveDeep(v) != ssa.Value(valParam) {
 						bad = p.pos(c.Pos())
 					}
 				}
+				// success is reported only after the write: a nil result of the operation's closure comes after an
+				// engine write (a compare-and-swap that leaves the key out of the transaction when the value is
+				// unchanged also leaves it out of the engine's conflict detection)
+				if len(writes) == 0 || g.Signature.Results().Len() != 1 {
+					continue
+				}
+				for _, b := range g.Blocks {
+					ret, ok := b.Instrs[len(b.Instrs)-1].(*ssa.Return)
+					if !ok || !isNilConst(resolve(ret.Results[0])) {
+						continue
+					}
+					after := false
+					for _, w := range writes {
+						if instrDominates(w.(ssa.Instruction), ret) {
+							after = true
+						}
+					}
+					if !after {
+						skipped = p.pos(ret.Pos())
+					}
+				}
+			}
+			if skipped != "" && bad == "" {
+				res.bad("C11-R1", fmt.Sprintf("%s.%s: the value written is the value parameter", short, m.Name()), skipped, "the operation reports success on a path on which nothing was handed to the engine: the key is then not part of the engine transaction, so neither written nor covered by its conflict detection - a condition that held at the snapshot is not re-validated at commit")
+				continue
 			}
 			construct := fmt.Sprintf("%s.%s: the value written is the value parameter", short, m.Name())
 			switch {
@@ -1301,7 +1333,8 @@ func checkC12(p *Prog, res *Result, tier string) {
 	res.Explanation = "Engine independence is a 2-safety property over engines; statically it reduces to the points where engine differences can leak. Shared with C11: identical condition-failure classes across adapters and compare-before-write (C11-R1), not-found identity (C11-R6), wrapper transparency (C11-R5), partition clamp (C11-R7). Own rules: R1 dispatch completeness — the write paths of the backend test errors only for the classes the adapter table defines (errors.Is ErrCASFailed / ErrUncertainResult, ==/Is ErrKeyNotFound, the Conflict type assertion), never for an engine-specific error; R2 the engine feature flag SupportTTL is consulted only in the scanner's expiry code."
 	res.NotDecided = "equality of transcripts across engines; engine-specific limits (transaction size, TTL timing)."
 	res.Assumptions = []string{"C11 assumptions"}
-	res.rule("C12-R0", "C11-R1 / R2 / R5 / R6 / R7 (sibling agreement of the adapters and the wrapper; batch begin/commit discipline, which only the in-process engine turns into a lock)", 30)
+	res.rule("C12-R0", "C11-R1 / R2 / R5 / R6 / R7 / R9 (sibling agreement of the adapters and the wrapper; batch begin/commit discipline, which only the in-process engine turns into a lock)", 30)
+	res.rule("C12-R5", "bytes handed to an engine write are not a window into a reusable buffer: the in-process engine keeps the slice it is given, the others copy it", 10)
 	res.rule("C12-R4", "results do not depend on how the engine partitions the key space, which only TiKV does (C13-R5)", 2)
 	res.rule("C12-R1", "the backend's write paths dispatch only on the error classes of the adapter table", 5)
 	res.rule("C12-R2", "SupportTTL is consulted only by the scanner's expiry code", 2)
@@ -1309,7 +1342,7 @@ func checkC12(p *Prog, res *Result, tier string) {
 
 	sub := p.subResult("C11", tier)
 	for _, o := range sub.Obls {
-		if o.Rule == "C11-R1" || o.Rule == "C11-R2" || o.Rule == "C11-R5" || o.Rule == "C11-R6" || o.Rule == "C11-R7" {
+		if o.Rule == "C11-R1" || o.Rule == "C11-R2" || o.Rule == "C11-R5" || o.Rule == "C11-R6" || o.Rule == "C11-R7" || o.Rule == "C11-R9" {
 			res.add("C12-R0", o.Rule+" "+o.Construct, o.Status, o.Pos, o.Detail)
 		}
 	}
@@ -1323,6 +1356,8 @@ func checkC12(p *Prog, res *Result, tier string) {
 	for k, v := range sub.Stats {
 		res.Stats[k] = v
 	}
+	// R5: who owns the bytes of a write
+	checkValueOwnership(p, r, res, "C12-R5", func(*ssa.Function) bool { return true })
 
 	// R3: iterators of the in-process engine hand out snapshot copies, as the other engines do (C19-R3)
 	sub19 := newResult("C19")
@@ -1429,5 +1464,134 @@ func checkC12(p *Prog, res *Result, tier string) {
 				res.bad("C12-R2", construct, p.pos(c.Pos()), "an engine feature flag steers behaviour outside the scanner's expiry code: client-visible behaviour becomes engine dependent")
 			}
 		}
+	}
+}
+
+// checkDelIdempotent: no adapter's stand-alone Del reports a storage sentinel (ErrKeyNotFound); a missing key is a no-op
+// for every engine, and the callers (compaction, expiry) rely on that.
+func checkDelIdempotent(p *Prog, r *Roles, res *Result, rule string) {
+	errT := types.Universe.Lookup("error").Type()
+	for _, ap := range adapterPkgs {
+		short := ap[strings.LastIndex(ap, "/")+1:]
+		f := p.implIn(r.KVDel, ap)
+		construct := short + ".Del: a missing key is not an error"
+		if f == nil {
+			res.und(rule, construct, "-", "implementation not found")
+			continue
+		}
+		bad := ""
+		for _, g := range withAnon(f) {
+			for _, b := range g.Blocks {
+				ret, ok := b.Instrs[len(b.Instrs)-1].(*ssa.Return)
+				if !ok {
+					continue
+				}
+				for _, rv := range ret.Results {
+					if !types.Identical(rv.Type(), errT) {
+						continue
+					}
+					for _, cl := range p.errClasses(rv) {
+						if strings.HasPrefix(cl, "sentinel:") {
+							bad = p.pos(ret.Pos()) + " (" + cl + ")"
+						}
+					}
+				}
+			}
+		}
+		if bad == "" {
+			res.ok(rule, construct, p.pos(f.Pos()), "returns nil or the engine's error only")
+		} else {
+			res.bad(rule, construct, bad, "Del reports a storage sentinel for a key that is not there; the other adapters treat that as a no-op, and the compaction worker, which may delete a record twice, takes the error for a failed delete and leaves the key's superseded versions behind on this engine only")
+		}
+	}
+}
+
+// checkNativeTTLHonoured: where SupportTTL() is the constant true, the ttl parameter of Put / PutIfNotExist / CAS
+// reaches a call into the engine library (it is not dropped).
+func checkNativeTTLHonoured(p *Prog, r *Roles, res *Result, rule string) {
+	n := 0
+	for _, ap := range adapterPkgs {
+		short := ap[strings.LastIndex(ap, "/")+1:]
+		st := p.implIn(r.KVSupportTTL, ap)
+		if st == nil {
+			continue
+		}
+		native := false
+		for _, b := range st.Blocks {
+			if ret, ok := b.Instrs[len(b.Instrs)-1].(*ssa.Return); ok && len(ret.Results) == 1 {
+				if k, ok := ret.Results[0].(*ssa.Const); ok && k.Value != nil && k.Value.String() == "true" {
+					native = true
+				}
+			}
+		}
+		if !native {
+			continue
+		}
+		for _, op := range []struct {
+			name string
+			m    *types.Func
+		}{{"Put", r.BWPut}, {"PutIfNotExist", r.BWPutIfNotExist}, {"CAS", r.BWCAS}} {
+			f := p.implIn(op.m, ap)
+			construct := fmt.Sprintf("%s.%s: ttl handed to the engine", short, op.name)
+			if f == nil {
+				res.und(rule, construct, "-", "implementation not found")
+				continue
+			}
+			n++
+			var ttl *ssa.Parameter
+			for _, prm := range f.Params {
+				if b, ok := prm.Type().Underlying().(*types.Basic); ok && b.Kind() == types.Int64 {
+					ttl = prm
+				}
+			}
+			if ttl == nil {
+				res.und(rule, construct, p.pos(f.Pos()), "ttl parameter not found")
+				continue
+			}
+			used := false
+			for _, g := range withAnon(f) {
+				for _, c := range callsIn(g) {
+					sc := c.Common().StaticCallee()
+					if sc == nil || sc.Pkg == nil || strings.HasPrefix(sc.Pkg.Pkg.Path(), modPath) || !strings.Contains(sc.Pkg.Pkg.Path(), ".") || strings.Contains(sc.Pkg.Pkg.Path(), "klog") {
+						continue
+					}
+					for _, a := range c.Common().Args {
+						if derivesFrom(p, a, func(v ssa.Value) bool { return p.resolveDeep(v) == ssa.Value(ttl) }) {
+							used = true
+						}
+					}
+				}
+			}
+			// .. or is recorded with the staged operation and read again when the batch is applied
+			how := "the ttl reaches a call into the engine library"
+			if !used {
+				for _, g := range withAnon(f) {
+					for _, b := range g.Blocks {
+						for _, ins := range b.Instrs {
+							st, ok := ins.(*ssa.Store)
+							if !ok {
+								continue
+							}
+							fa, ok := st.Addr.(*ssa.FieldAddr)
+							if !ok || len(p.fields().loads[fieldOf(fa)]) == 0 {
+								continue
+							}
+							if derivesFrom(p, st.Val, func(v ssa.Value) bool { return p.resolveDeep(v) == ssa.Value(ttl) }) {
+								used = true
+								how = "the ttl is recorded in the staged operation (field " + fieldOf(fa).Name() + "), which is read when the batch is applied"
+							}
+						}
+					}
+				}
+			}
+			if used {
+				res.ok(rule, construct, p.pos(f.Pos()), how)
+			} else {
+				res.bad(rule, construct, p.pos(f.Pos()), "this engine advertises native TTL (the expiry worker leaves its events alone), but this write form drops the ttl: a record written through it never expires - an event re-created over a deleted one keeps its index record for ever")
+			}
+		}
+	}
+	if n == 0 {
+		res.und(rule, "native-TTL adapters", "-", "no adapter with SupportTTL() == true found")
 	}
 }
